@@ -1527,13 +1527,13 @@ fn main() {
             let seed: u64 = args.get(2).and_then(|s| s.parse().ok()).unwrap_or(1);
             let thorough = args.get(3).map(|s| s == "thorough").unwrap_or(false);
             let tier = if thorough { "thorough" } else { "quick" };
-            let scripts: u64 = if thorough { 3000 } else { 120 };
+            let scripts: u64 = if thorough { 3000 } else { 300 };
             let seed_s = seed.to_string();
             use rotov_harness::worker::{Ended, run_batches};
             run_batches(
                 &[&seed_s, tier],
                 scripts,
-                if thorough { 125 } else { 60 },
+                if thorough { 125 } else { 100 },
                 std::time::Duration::from_secs(1500),
                 &mut rep,
                 |rep: &mut Report, idx: u64, how: &Ended| {
